@@ -65,8 +65,39 @@ def _cls_of(obj):
     return None
 
 
+def _state(o):
+    """Public fields of an angle object (operators must not modify their operands)."""
+    return tuple((f, getattr(o, f)) for f in ("dec_angle", "hp_angle", "gon_angle", "degree", "minute", "second", "positive")
+                 if hasattr(o, f)) + ((float(o),) if isinstance(o, float) else ())
+
+
 def _eval(node, path="root"):
     """-> (object, float reference value, propagated tolerance in degrees, exact-comparable flag)"""
+    # evaluate, then make sure no operand object was modified by the operation that consumed it
+    if node["op"] == "leaf":
+        return _eval1(node, path)
+    return _eval_checked(node, path)
+
+
+def _eval_checked(node, path):
+    op = node["op"]
+    before = []
+
+    def ev(n, p):
+        r = _eval(n, p)
+        before.append((r[0], _state(r[0]), n))
+        return r
+    res = _eval1(node, path, ev)
+    for o, st0, n in before:
+        if _state(o) != st0:
+            raise Fail("%s modified its operand (the operand object no longer holds the angle it held)" % op,
+                       expected=dict((k, v) for k, v in st0 if isinstance(k, str)), observed=repr(o), bucket="%s mutates operand" % op)
+    return res
+
+
+def _eval1(node, path="root", _ev=None):
+    """-> (object, float reference value, propagated tolerance in degrees, exact-comparable flag)"""
+    _eval = _ev if _ev is not None else globals()["_eval"]      # noqa: children are evaluated through the tracking evaluator
     op = node["op"]
     if op == "leaf":
         try:
@@ -350,6 +381,6 @@ def _classes(case):
 SUBCHECKS = [
     SubCheck("expression_trees", check_tree, strategy=cases, nontrivial=_nt, classes=_classes,
              quick=6000, thorough=600000, shards_quick=6, shards_thorough=16,
-             rule="per node: operator result == operator on .dec() values (1e-8\"), class of the left operand, rounding bound; "
+             fresh=(8, 64, 3), rule="per node: operator result == operator on .dec() values (1e-8\"), class of the left operand, rounding bound; "
                   "whole tree == float evaluation with propagated tolerance; comparisons at the root"),
 ]
